@@ -37,7 +37,7 @@ def run(ctx):
                             (cnat(s), cnat(x), cnat(y), cbool(periodic), opt(r), cnat(s), cnat(x), cnat(y), cbool(periodic), opt(b)))
             add('neighbors', '(forallb (fun b : bool => b) %s)' % clist(rows), {'call': '_right_neighbor/_bottom_neighbor', 'x': x, 'y': y, 'periodic': periodic}, key=(x, y, periodic))
             for spinless, ph in itertools.product((True, False), repeat=2):
-                if x * y * (1 if spinless else 2) > N(18, 32): continue
+                if x * y * (1 if spinless else 2) > N(18, 24): continue
                 t, U, mu, h = (float(dy(rng) or 1.0) for _ in range(4))
                 if spinless: h = 0.0
                 H = fermi_hubbard(x, y, t, U, mu, h, periodic, spinless, ph)
@@ -190,7 +190,7 @@ def run(ctx):
                 if dim == 3: scale[1, 2] = rng.choice([0.5, -0.25])
             grid = of.Grid(dim, length, scale)
             nq = grid.num_points * (1 if spinless else 2)
-            if nq > N(9, 18): continue
+            if nq > N(9, 12): continue
             lengths = list(grid.length)
             A = scale * _np.eye(dim) if isinstance(scale, float) else scale
             # geometry: position vectors are combinations of the COLUMNS of the cell matrix; reciprocal relation
